@@ -280,6 +280,69 @@ func init() {
 			c.set(litStr(strings.TrimSpace(a.S)))
 			return nil, false
 		}
+		// a concatenation: literal white space at the two ends is cut; what remains is returned as
+		// it is when its outer pieces are base64 text (no white space in that alphabet) or literals
+		if leaves := flattenConcat(a.T); a.K == SOpaque && len(leaves) > 1 {
+			isWS := func(s string) bool { return strings.TrimSpace(s) == "" }
+			lo, hi := 0, len(leaves)
+			var first, last *StrV
+			for lo < hi {
+				lv := opaqueStr(leaves[lo])
+				if lv.K == SLit && isWS(lv.S) {
+					lo++
+					continue
+				}
+				if lv.K == SLit {
+					t := litStr(strings.TrimLeft(lv.S, " \t\n\r\v\f"))
+					first = &t
+				}
+				break
+			}
+			for hi > lo {
+				lv := opaqueStr(leaves[hi-1])
+				if lv.K == SLit && isWS(lv.S) {
+					hi--
+					continue
+				}
+				if lv.K == SLit {
+					t := litStr(strings.TrimRight(lv.S, " \t\n\r\v\f"))
+					last = &t
+				}
+				break
+			}
+			clean := func(l string, lit *StrV) bool {
+				if lit != nil {
+					return true
+				}
+				_, isB64 := c.s.B64[l]
+				return isB64
+			}
+			if lo < hi && clean(leaves[lo], first) && clean(leaves[hi-1], last) {
+				out := litStr("")
+				for i := lo; i < hi; i++ {
+					lv := opaqueStr(leaves[i])
+					if i == lo && first != nil {
+						lv = *first
+					}
+					if i == hi-1 && last != nil && !(i == lo && first != nil) {
+						lv = *last
+					}
+					out = strConcat(out, lv)
+				}
+				c.set(out)
+				return nil, false
+			}
+			if lo == hi {
+				c.set(litStr(""))
+				return nil, false
+			}
+		}
+		if a.K == SOpaque {
+			if _, isB64 := c.s.B64[a.T]; isB64 {
+				c.set(a) // base64 text has no white space
+				return nil, false
+			}
+		}
 		c.set(opaqueStr(c.w.applyUF(c.s, "strings.TrimSpace", []Value{a}, "String", "string")))
 		return nil, false
 	}
